@@ -213,7 +213,10 @@ func (x *Exec) buildScripts() []*scriptJob {
 						fmt.Fprintf(&body, "(echo \"goal %d\")\n(push 1)\n(assert (not %s))\n(check-sat)\n(pop 1)\n", g.id, n.text)
 					}
 				}
-				if g.expect != "cover" {
+				// a proved goal is a fact for the rest of the path; the
+				// obligation of an open finding is expected to fail and is
+				// therefore never assumed
+				if g.expect != "cover" && !isOpenFinding(g.name) {
 					body.WriteString("(assert " + n.text + ") ; " + g.name + "\n")
 				}
 			}
@@ -455,4 +458,26 @@ done:
 	}
 	b := body.String()
 	return x.w.header(b, post.String())
+}
+
+// openFindingObls holds the obligation names (prefixes) of the open entries
+// of known_findings.json.
+var openFindingObls []string
+
+func isOpenFinding(name string) bool {
+	for _, p := range openFindingObls {
+		if strings.HasPrefix(name, p) {
+			return true
+		}
+	}
+	return false
+}
+
+func loadOpenFindings(verif string) {
+	openFindingObls = nil
+	for _, f := range readFindings(filepath.Join(verif, "known_findings.json")) {
+		if f.Status == "open" && f.Obligation != "" {
+			openFindingObls = append(openFindingObls, f.Obligation)
+		}
+	}
 }
